@@ -639,6 +639,9 @@ func classifyErrValue(ev ssa.Value, b *ssa.BasicBlock, depth int) retClass {
 // to a non-nil error (checked by rule E-wrap-arg) so they count as well.
 func isErrorConstructorCall(c *ssa.Call) bool {
 	f := c.Call.StaticCallee()
+	if f != nil && (f.String() == "fmt.Errorf" || f.String() == "errors.New") {
+		return true
+	}
 	if f == nil || f.Pkg == nil || f.Pkg.Pkg.Path() != rootPkgPath {
 		return false
 	}
